@@ -264,10 +264,10 @@ def parts(tier):
                 CH("class_names_vs_root_names", "vflib.props.c03:scen_roots", {"frameworks": ["pydantic", "dataclasses"]}, shards=10, timeout=170, path_timeout=30),
                 CH("labels_alphabet", "vflib.props.c11:scen_labels", {"maxlen": 3}, shards=16, timeout=170, path_timeout=30)]
     return [SMT("quoting", "vflib.props.c11:kernel_quoting", {}, timeout=200, mode="SMT-S"),
-            CH("keys", "vflib.props.c11:scen_keys", {"pool": "full"}, shards=16, timeout=250, path_timeout=30),
-            CH("key_in_child_model", "vflib.props.c11:scen_key_in_child", {}, shards=16, timeout=250, path_timeout=30),
-            CH("class_names_vs_root_names", "vflib.props.c03:scen_roots", {}, shards=10, timeout=250, path_timeout=30),
-            CH("labels_alphabet", "vflib.props.c11:scen_labels", {"maxlen": 4}, shards=16, timeout=250, path_timeout=60)]
+            CH("keys", "vflib.props.c11:scen_keys", {"pool": "full"}, shards=16, timeout=150, path_timeout=30),
+            CH("key_in_child_model", "vflib.props.c11:scen_key_in_child", {}, shards=16, timeout=150, path_timeout=30),
+            CH("class_names_vs_root_names", "vflib.props.c03:scen_roots", {}, shards=10, timeout=150, path_timeout=30),
+            CH("labels_alphabet", "vflib.props.c11:scen_labels", {"maxlen": 4}, shards=16, timeout=150, path_timeout=60)]
 
 
 META = {
